@@ -16,6 +16,8 @@ ASSUMPTIONS = [
 ]
 SPEC = {
     'quick': [('K21', 'lend', 4),
+              ('K24', 'liq', 3),
+              ('K25', 'lend', 3),
               ('K0p', 'small', 3),
               ('K1', 'ar', 6),
               ('K16', 'cross', 4),
